@@ -26,7 +26,7 @@ func StartSignReceiver(config *keygen.ConfigReceiver, selfID, otherID party.ID, 
 			return nil, errors.New("sign.StartSign: message hash is empty")
 		}
 		info := round.Info{
-			ProtocolID:       "doerner/keygen",
+			ProtocolID:       "doerner/sign",
 			FinalRoundNumber: 2,
 			SelfID:           selfID,
 			PartyIDs:         party.NewIDSlice([]party.ID{selfID, otherID}),
@@ -58,7 +58,7 @@ func StartSignSender(config *keygen.ConfigSender, selfID, otherID party.ID, hash
 			return nil, errors.New("sign.StartSign: message hash is empty")
 		}
 		info := round.Info{
-			ProtocolID:       "doerner/keygen",
+			ProtocolID:       "doerner/sign",
 			FinalRoundNumber: 2,
 			SelfID:           selfID,
 			PartyIDs:         party.NewIDSlice([]party.ID{selfID, otherID}),
